@@ -196,7 +196,14 @@ def run(ctx, res):
     for i in range(20 if ctx.tier == 'quick' else 300):
         la = [wire.encode_line(g.rid(), 'NSC', ('WNSC', 's%d' % i), b'\r\n')]
         partial = rng.choice([b'77|SUB|S|left', b'8|NUS|S|u|S', b'x'])
-        run_impl([b''.join(la) + partial])              # ends at EOF holding `partial`
+        per0, exc0 = run_impl([b''.join(la) + partial])              # ends at EOF holding `partial`
+        res.evaluations += 1
+        res.count('eof-with-partial-line')
+        flat0 = [l for c in per0 for l in c]
+        if flat0 != la:
+            res.oracle_violations.append({'case': {'chunks': [b''.join(la) + partial], 'then': 'EOF'},
+                                          'detail': 'the connection ended after the unterminated fragment %r: dispatched %r, expected only the complete line %r' % (partial, flat0, la),
+                                          'key': {'stage': 'eof-partial'}})
         lb = [wire.encode_line(g.rid(), 'USB', ('WItem', 'i%d' % i), rng.choice([b'\r\n', b'\n'])) for _ in range(rng.randint(1, 3))]
         sb = b''.join(lb)
         cut = rng.randint(1, len(sb) - 1)
